@@ -371,7 +371,7 @@ func runC17(ctx Ctx) int {
 			}
 		}
 	}
-	deadline := devx.Deadline(map[string]time.Duration{"quick": 5 * time.Minute, "thorough": 40 * time.Minute}[run.Tier])
+	deadline := devx.Deadline(map[string]time.Duration{"quick": 5 * time.Minute, "thorough": 15 * time.Minute}[run.Tier])
 	_, complete := parallel(len(cases), deadline, func(i int) {
 		c := cases[i]
 		class, clauses, detail := c17Judge(c)
@@ -397,7 +397,7 @@ func runC17(ctx Ctx) int {
 	{
 		cb, cs := 1, 90
 		if run.Tier == "thorough" {
-			cb, cs = 2, 1200
+			cb, cs = 2, 180
 		}
 		runConc(run, "C17", cb, cs)
 	}
